@@ -58,7 +58,7 @@ class InstantiatedClass(parser.Class):
         # Instantiate all instance methods
         self.methods = self.instantiate_methods(typenames)
         
-        self.dunder_methods = original.dunder_methods
+        self.dunder_methods = self.instantiate_dunder_methods(typenames)
 
         super().__init__(
             self.template,
@@ -101,6 +101,17 @@ class InstantiatedClass(parser.Class):
         if isinstance(self.original.parent_class, parser.type.TemplatedType):
             return instantiate_type(
                 self.original.parent_class, typenames, self.instantiations,
+                parser.Typename(self.namespaces())).typename
+        elif isinstance(self.original.parent_class, parser.Typename):
+            # The base class may itself be a template parameter, e.g. `class A : T`.
+            parent_type = parser.Type(typename=self.original.parent_class,
+                                      is_const='',
+                                      is_shared_ptr='',
+                                      is_ptr='',
+                                      is_ref='',
+                                      is_basic=False)
+            return instantiate_type(
+                parent_type, typenames, self.instantiations,
                 parser.Typename(self.namespaces())).typename
         else:
             return self.original.parent_class
@@ -190,6 +201,29 @@ class InstantiatedClass(parser.Class):
                     parent=self,
                 ))
         return instantiated_operators
+
+    def instantiate_dunder_methods(self, typenames):
+        """
+        Instantiate the class-level template in the dunder methods.
+
+        Args:
+            typenames: List of template types to instantiate.
+
+        Return: List of dunder methods instantiated with provided template args on the class.
+        """
+        instantiated_dunder_methods = []
+        for dunder_method in self.original.dunder_methods:
+            instantiated_args = instantiate_args_list(
+                dunder_method.args.list(),
+                typenames,
+                self.instantiations,
+                self.cpp_typename(),
+            )
+            instantiated_dunder_methods.append(
+                parser.DunderMethod(
+                    dunder_method.name,
+                    parser.ArgumentList(instantiated_args)))
+        return instantiated_dunder_methods
 
     def instantiate_properties(self, typenames):
         """
